@@ -170,6 +170,9 @@ func (c *Collection) add(key string, exp Exp, val []byte, isJSON bool) (added bo
 		casOut = newCas
 		n, _ := result.RowsAffected()
 		added = (n > 0)
+		if !added {
+			return nil, nil // nothing was written, so there is no mutation to announce
+		}
 
 		e = &event{
 			key:      key,
